@@ -8,6 +8,7 @@ from sa.flow import Analysis
 from sa.loader import AnalysisError
 from sa.canon import canon
 from checks.c02 import make_world
+from checks.common import is_nonempty_test
 
 DISPLAY_FLAG = 'display_coupled_residues'
 
@@ -367,11 +368,12 @@ def run(ctx):
     ican = canon(ident)
 
     def positive_factor(e, p):
-        # <result of is_coupled_protonation_state_probability(...)>['coupling_factor'] > 0
-        if not (p and isinstance(e, ast.Compare) and isinstance(e.ops[0], ast.Gt)
-                and try_fold(e.comparators[0]) == 0):
+        # 0 < <result of is_coupled_protonation_state_probability(...)>['coupling_factor']
+        # (the loader orients every ordering comparison with '<')
+        if not (p and isinstance(e, ast.Compare) and len(e.ops) == 1 and isinstance(e.ops[0], ast.Lt)
+                and try_fold(e.left) == 0):
             return False
-        left = ican.expr(e.left)
+        left = ican.expr(e.comparators[0])
         return isinstance(left, ast.Subscript) and isinstance(left.slice, ast.Constant) \
             and left.slice.value == 'coupling_factor' and isinstance(left.value, ast.Call) \
             and last_attr(left.value) == 'is_coupled_protonation_state_probability'
@@ -390,10 +392,10 @@ def run(ctx):
     if len(star) == 1 and len(blank) >= 1:
         par = star[0]._parent
         ok = isinstance(par, ast.If) and star[0] in par.body and \
-            norm(par.test).replace(' ', '') == 'len(self.non_covalently_coupled_groups)>0' and \
+            is_nonempty_test(par.test, 'self.non_covalently_coupled_groups') and \
             any(b in par.orelse for b in blank)
     ctx.ob('C15.R5', 'star-iff-partner', ok,
            "the row gets '*' on the true edge and ' ' on the false edge of "
-           "len(non_covalently_coupled_groups) > 0", gmod, star[0] if star else ds)
+           "'non_covalently_coupled_groups is non-empty'", gmod, star[0] if star else ds)
     ctx.assume('swap + swap-back restores each determinant list as a multiset, not its order; '
                'bit-equality of the recomputed sums is therefore not decided')
